@@ -22,7 +22,7 @@ import warnings
 from . import c11 as C11
 
 LEVEL = "exploration"
-TECHNIQUE = "runtime monitoring, offline history checker: sequences of 2-5 runs (fresh subprocesses, bytecode writing enabled) over one cache directory, each with its own hook set / typechecker / import order / source edit; per run and module the observed (instrumented?, by which spy, source version) is compared with the stateless expectation; .pyc files created per run are recorded; runs under python -O / -OO and -B, sources older than the library, re-hooking with another typechecker in one process, imports started deep inside the call stack"
+TECHNIQUE = "runtime monitoring, offline history checker: sequences of 2-5 runs (fresh subprocesses, bytecode writing enabled) over one cache directory, each with its own hook set / typechecker / import order / source edit; per run and module the observed (instrumented?, by which spy, source version) is compared with the stateless expectation; .pyc files created per run are recorded; runs under python -O / -OO and -B, sources older than the library, re-hooking with another typechecker in one process, imports started deep inside the call stack (dense sweep of distances from the recursion limit), damaged cache entries, imports concurrent with a hooked load in another thread, and a source file saved again DURING its import (an audit hook performs the save at a chosen moment: before the read, at compile(), before the cache write)"
 LEVEL_TEXT = (
     "Held on every generated history explored (each run a real interpreter start with PYTHONDONTWRITEBYTECODE unset, which "
     "this sandbox otherwise sets - the repository's suite can never read a cache back). Sampling over histories."
@@ -55,7 +55,7 @@ def required_counters(tier):
         "nested_unhooked_inside_hooked": 30,
         "nested_hooked_inside_unhooked": 10,
         "pyc_files_created": 200,
-        "runs_with_cache_present": 100, "runs_with_failing_hooked_import": 20, "runs_read_only_cache": 20, "in_process_reimport": 5, "in_process_edit_and_reimport": 5, "runs_with_checking_disabled": 15, "source_edits.same_mtime_other_size": 10, "in_process_rehook_with_other_checker": 5, "histories.sources_older_than_the_library": 20, "runs_python_O": 30, "histories.pycache_blocked": 5, "corrupt_cache.scenarios": 4, "concurrent_imports.scenarios": 1, "deep_import.modules": 10,
+        "runs_with_cache_present": 100, "runs_with_failing_hooked_import": 20, "runs_read_only_cache": 20, "in_process_reimport": 5, "in_process_edit_and_reimport": 5, "runs_with_checking_disabled": 15, "source_edits.same_mtime_other_size": 10, "in_process_rehook_with_other_checker": 5, "histories.sources_older_than_the_library": 20, "runs_python_O": 30, "histories.pycache_blocked": 5, "corrupt_cache.scenarios": 4, "concurrent_imports.scenarios": 1, "deep_import.modules": 10, "edit_during_import.scenarios": 8,
     }
 
 
@@ -470,6 +470,123 @@ def arm_corrupt_cache(rec, rng):
             shutil.rmtree(root, ignore_errors=True)
 
 
+EDIT_MOD = """
+import numpy as np
+from jaxtyping import Float
+VERSION = {version}
+FILLER = {filler!r}
+def f(x: Float[np.ndarray, "a"], y: Float[np.ndarray, "a"]):
+    return "ran"
+"""
+EDIT_CHILD = r"""
+import importlib, json, os, sys, warnings
+warnings.filterwarnings("ignore")
+import numpy as np, jaxtyping, typeguard
+root, mode, moment, newsrc, bump = sys.argv[1], sys.argv[2], sys.argv[3], sys.argv[4], float(sys.argv[5])
+sys.path.insert(0, root)
+src = os.path.join(root, "jtv_edit_mod.py")
+state = {"armed": moment != "never", "compiles": 0, "fired": None}
+def save_now(where):
+    # the editor / formatter / checkout that saves the file while this process is importing it
+    state["armed"] = False
+    state["fired"] = where
+    st = os.stat(src)
+    with open(src, "w") as f:
+        f.write(open(newsrc).read())
+    os.utime(src, (st.st_atime, st.st_mtime + bump))
+def audit(ev, args):
+    if not state["armed"]:
+        return
+    try:
+        if ev == "open" and moment == "before-read" and args[0] == src:
+            save_now("open(source)")
+        elif ev == "compile" and args[1] == src:
+            state["compiles"] += 1
+            if moment == "compile-%d" % state["compiles"]:
+                save_now("compile #%d" % state["compiles"])
+        elif ev == "open" and moment == "before-cache-write" and isinstance(args[0], str) and "__pycache__" in args[0] and "jtv_edit_mod" in args[0] and state["compiles"]:
+            save_now("open(cache file for writing)")
+    except Exception:
+        pass
+sys.addaudithook(audit)
+hook = jaxtyping.install_import_hook(["jtv_edit_mod"], "typeguard.typechecked") if mode == "hooked" else None
+out = {}
+try:
+    mod = importlib.import_module("jtv_edit_mod")
+    out = {"import": "ok", "version": mod.VERSION, "wrapped": hasattr(mod.f, "__wrapped__")}
+    try:
+        out["ill"] = mod.f(np.zeros(2, dtype="float32"), np.zeros(3, dtype="float32"))
+    except Exception as e:
+        out["ill"] = "exc:" + type(e).__name__
+except BaseException as e:
+    out = {"import": "exc:" + type(e).__name__}
+state["armed"] = False
+if hook is not None:
+    hook.uninstall()
+out["saved_at"] = state["fired"]
+print(json.dumps(out))
+"""
+
+
+def arm_edit_during_import(rec, rng):
+    """run 1 imports a module while it is being saved again (an audit hook - standard library, nothing in /repo - does
+    the save at a chosen moment of the import: before the loader reads the file, at its first compile() call of that file,
+    or just before the cache file is written). Whichever revision run 1 itself gets, every LATER run (fresh process,
+    file untouched since) must execute the revision that is on disk, instrumented as that run's configuration says."""
+    moments = ["before-read", "compile-1", "before-cache-write"]
+    for moment in moments:
+        for mode in ("hooked", "plain"):
+            root = tempfile.mkdtemp(prefix="jtv_c18_edit_")
+            try:
+                same_size = rng.random() < 0.3
+                bump = rng.choice([2.0, 2.0, 0.0]) if not same_size else 2.0
+                v1 = EDIT_MOD.format(version=1, filler="x" * 10)
+                v2 = EDIT_MOD.format(version=2, filler="x" * (10 if same_size else 13))
+                with open(os.path.join(root, "jtv_edit_mod.py"), "w") as f:
+                    f.write(v1)
+                os.utime(os.path.join(root, "jtv_edit_mod.py"), (time.time() - 500, time.time() - 500))
+                new = os.path.join(root, "next_revision.txt")
+                with open(new, "w") as f:
+                    f.write(v2)
+                env = dict(os.environ)
+                env.pop("PYTHONDONTWRITEBYTECODE", None)
+                env.pop("JAXTYPING_DISABLE", None)
+
+                def run(mode, moment):
+                    r = subprocess.run([sys.executable, "-c", EDIT_CHILD, root, mode, moment, new, str(bump)], capture_output=True, text=True, env=env, timeout=600, cwd=root)
+                    try:
+                        return json.loads(r.stdout.strip().splitlines()[-1])
+                    except Exception:
+                        return {"import": "child-failed: " + r.stderr[-200:]}
+
+                if rng.random() < 0.4:
+                    run("plain" if mode == "hooked" else "hooked", "never")  # the other kind of cache entry exists already
+                r1 = run(mode, moment)
+                if r1.get("import") != "ok" or not r1.get("saved_at"):
+                    rec.inconclusive.append(f"edit-during-import arm ({mode}, {moment}): run 1 gave {r1}")
+                    continue
+                rec.count("edit_during_import.scenarios")
+                rec.count(f"edit_during_import.saved_at.{moment}")
+                rec.count("edit_during_import.run1_executed_the_old_revision", int(r1["version"] == 1))
+                later = [mode, "plain" if mode == "hooked" else "hooked", mode]
+                for i, m2 in enumerate(later):
+                    r = run(m2, "never")
+                    rec.case(("edit-during-import", moment, mode, i, m2), True)
+                    case = {"edit_during_import": moment, "run1_mode": mode, "run1": r1, "later_run": i + 2, "later_mode": m2, "later": r, "mtime_bump_s": bump, "same_size": same_size}
+                    if r.get("import") != "ok":
+                        rec.violation("wrong-instrumentation", case, f"run {i + 2} ({m2}) after a run whose import of the module overlapped a save ({moment}): {r}", mechanism="import-fails-after-edit-during-import")
+                        break
+                    if r["version"] != 2:
+                        rec.violation("stale-source", case, f"run 1 ({mode}) imported the module while it was being saved ({r1['saved_at']}, mtime +{bump}s{', same size' if same_size else ''}); run {i + 2} ({m2}), with the file untouched since, runs source version {r['version']}, current source is version 2", mechanism="stale-source-after-edit-during-import")
+                        break
+                    want = {"wrapped": True, "ill": "exc:TypeCheckError"} if m2 == "hooked" else {"wrapped": False, "ill": "ran"}
+                    if {k: r[k] for k in ("wrapped", "ill")} != want:
+                        rec.violation("wrong-instrumentation", case, f"run {i + 2} ({m2}) after an edit during run 1's import: {r}", mechanism="cache-serves-instrumented-code-to-unhooked-module" if m2 == "plain" else "cache-serves-uninstrumented-code-to-hooked-module")
+                        break
+            finally:
+                shutil.rmtree(root, ignore_errors=True)
+
+
 CONCURRENT_CHILD = r'''
 import importlib, json, sys, threading, time, warnings
 warnings.filterwarnings("ignore")
@@ -564,6 +681,8 @@ def run_shard(rec, seed, shard, tier):
     warnings.filterwarnings("ignore")
     if shard["i"] == 3:
         arm_concurrent_imports(rec)
+    if shard["i"] in (4, 5):
+        arm_edit_during_import(rec, random.Random(f"{seed}/C18/{shard['i']}/edit"))
     if shard["i"] == 0:
         arm_deep_import(rec)
     if shard["i"] in (1, 2):
